@@ -444,6 +444,10 @@ class Fn:
                 pt = self.promoted_term(txt)
                 if pt is not None:
                     return pt
+            if v is None and txt in getattr(self.facts, '_const_j', {}):
+                ct = self.facts.const_term(txt)
+                if ct is not None:
+                    return ct
             return ('const', c['ty'], v if v is not None else txt)
         if k in ('copy', 'move'):
             return self.place_term(operand['place'], depth, seen)
@@ -761,9 +765,33 @@ class Facts:
             else:
                 self.fns[fn.path] = fn
         self.adts = {a['path']: a for a in j['adts']}
+        # constant items with a body (`const ALL: [NodeMode; 4] = [..]`): path -> value term, computed on demand
+        self._const_j = {}
+        for c in j.get('consts', []):
+            if not c['path'].endswith('::_'):
+                self._const_j.setdefault(c['path'], c)
+        self._const_terms = {}
         self.impls = j['impls']
         self.statics = j['statics']
         self.cfg = j.get('cfg', [])
+
+    def const_term(self, path):
+        """value of a constant item when it is a plain aggregate / array / literal, else None"""
+        if path not in self._const_terms:
+            t = None
+            cj = self._const_j.get(path)
+            if cj is not None:
+                pj = dict(cj)
+                pj.update({'unsafe': False, 'in_test': False, 'vis': '', 'parent': '', 'feats': [], 'upvars': []})
+                try:
+                    pf = Fn(self, pj)
+                    t0 = pf.local_term(0)
+                    if all(s[0] in ('agg', 'ref', 'const', 'tuple', 'array', 'cast', 'repeat') for s in walk(t0)):
+                        t = t0
+                except Exception:
+                    t = None
+            self._const_terms[path] = t
+        return self._const_terms[path]
 
     @classmethod
     def load(cls, path):
